@@ -45,6 +45,7 @@ CONSTANTS
     \* ---- emission pools (harness) ----
     AllCmpOps, RootCmpOps, AllLogSp, AtomIds, FuncIds, ListIds, MaxWalkOps,
     TrickyMaxOps,                   \* leaf modes 3 4 5 for the shapes up to this size
+    WideNums,                       \* numeric literals with many digits / extreme magnitudes / exponents (leaf mode 6)
     TrickySq, TrickyDq, TrickyBq,   \* string operands holding quotes / parentheses / brackets, by quote character
     RootKindsS     \* shapes emitted in one run: those whose root kind is in this set
 
@@ -347,11 +348,13 @@ LeafOf(d) == IF d <= 2 THEN <<"FUNC", RandomElement(FuncIds)>>
              ELSE <<"ATOM", RandomElement(AtomIds)>>
 
 \* leaf modes: 0 mixed; 1 every leaf a function call; 3 4 5 every leaf a string whose content could be
-\* mistaken for structure (quotes, parentheses, brackets), single- / double- / back-quoted
+\* mistaken for structure (quotes, parentheses, brackets), single- / double- / back-quoted;
+\* 6 every leaf a numeric literal from WideNums
 Leaf(mode) == CASE mode = 1 -> <<"FUNC", RandomElement(FuncIds)>>
                 [] mode = 3 -> <<"ATOM", RandomElement(TrickySq)>>
                 [] mode = 4 -> <<"ATOM", RandomElement(TrickyDq)>>
                 [] mode = 5 -> <<"ATOM", RandomElement(TrickyBq)>>
+                [] mode = 6 -> <<"ATOM", RandomElement(WideNums)>>
                 [] OTHER -> CHOOSE x \in {LeafOf(d) : d \in {RandomElement(1..16)}} : TRUE   \* (d is drawn once)
 
 \* fill the open spellings and leaves of a shape at random (keep: the attribute is already chosen)
@@ -371,7 +374,7 @@ SInit ==
     /\ \/ \E s \in {x \in Shapes : x[1] \in RootKindsS} :
             \/ (tree \in RootSp(s) /\ aux = 0)
             \/ (tree = s /\ aux = 1)
-            \/ (tree = s /\ aux \in {3, 4, 5} /\ CountOps(s) <= TrickyMaxOps)
+            \/ (tree = s /\ aux \in {3, 4, 5, 6} /\ CountOps(s) <= TrickyMaxOps)
        \/ ("ATOM" \in RootKindsS /\ tree \in {<<"LIST", l>> : l \in ListIds} /\ aux = 2)
     /\ phase = "shape"
     /\ todo = <<>> /\ stack = <<>> /\ forest = <<>> /\ ops = 0
